@@ -173,6 +173,7 @@ InOut ==
 
 Forms == Load8 \cup Load16 \cup Exchange \cup Alu8 \cup General \cup Arith16 \cup RotBit \cup Jumps \cup InOut
 
+After(cpu, prev, form, units) == units
 Skipped(cpu, form, ops) == FALSE
 Unjudged(cpu, form, ops) == FALSE
 
